@@ -109,7 +109,7 @@ pub fn width_class(n: usize) -> Option<usize> {
 /// Builds a TLF for type `ty` whose *nibble value* is `value`, using exactly `nbytes` bytes
 /// (leading zero groups if nbytes is larger than needed). None if it does not fit.
 pub fn build_tlf_raw(ty_bits: u8, value: u128, nbytes: usize) -> Option<Vec<u8>> {
-    if nbytes == 0 || nbytes > 32 {
+    if nbytes == 0 {
         return None;
     }
     if nbytes < 32 && value >> (4 * nbytes) != 0 {
@@ -118,7 +118,8 @@ pub fn build_tlf_raw(ty_bits: u8, value: u128, nbytes: usize) -> Option<Vec<u8>>
     let mut out = Vec::with_capacity(nbytes);
     for i in 0..nbytes {
         let shift = 4 * (nbytes - 1 - i);
-        let nib = ((value >> shift) & 0xf) as u8;
+        // any number of leading zero groups is allowed (a TLF may span arbitrarily many bytes)
+        let nib = if shift >= 128 { 0 } else { ((value >> shift) & 0xf) as u8 };
         let more = if i + 1 < nbytes { 0x80 } else { 0 };
         let t = if i == 0 { (ty_bits & 7) << 4 } else { 0 };
         out.push(more | t | nib);
